@@ -441,3 +441,105 @@ Example C04_iso_example :
   atoms_iso BinNums.Z BinNums.Z0 (BinNums.Zpos BinNums.xH) BinInt.Z.add BinInt.Z.mul ex_wires ex_dim ex_tblZ ex_u ex_u' ex_o ex_ka ex_kb (RN 1 []).
 Proof. exact ex_iso_hypotheses. Qed.
 Print Assumptions C04_iso_example.
+
+(* ==== the bridge from the STORE to the isometry theorem (Contr/TensorProdBridge*.v) ================================================ *)
+From PTN Require Import TTN.InvSem TTN.Canon Contr.TensorProdBridge Contr.TensorProdBridgeProofs Contr.TensorProdBridgeStore.
+
+(* (b) the denotation of a glued diagram (gvalue: SUM over the bound wires and over one index per glued pair of the product of
+   the atoms, the second wire of a pair reading the index of the first) depends only on the multisets of atoms, bound wires
+   and glued pairs, and on a diagram without glued pairs it is the denotation of Wire/Sem.v *)
+Theorem C04_gvalue_perm : forall (R : Type) (zero one : R) (add mul : R -> R -> R), comm_semiring zero one add mul ->
+  forall (wires_of : nat -> list wire) (dim : wire -> nat) (tbl : nat -> list nat -> R) (g g' : garr) (rho : wire -> nat),
+  Permutation (gatoms g) (gatoms g') -> Permutation (gbnd g) (gbnd g') -> Permutation (gglue g) (gglue g') ->
+  NoDup (map snd (gglue g)) ->
+  gvalue R zero one add mul wires_of dim tbl g rho = gvalue R zero one add mul wires_of dim tbl g' rho.
+Proof. exact gvalue_perm. Qed.
+Print Assumptions C04_gvalue_perm.
+
+Theorem C04_gvalue_plain : forall (R : Type) (zero one : R) (add mul : R -> R -> R)
+    (wires_of : nat -> list wire) (dim : wire -> nat) (tbl : nat -> list nat -> R) (t : sarr) (rho : wire -> nat),
+  gvalue R zero one add mul wires_of dim tbl (of_sarr t) rho = value R zero one add mul wires_of dim tbl t rho.
+Proof. exact gvalue_plain. Qed.
+Print Assumptions C04_gvalue_plain.
+
+(* the tree of a store re-rooted at the centre (the DFS of distance_to_node returning the tree): every node once; the
+   children of a node are its neighbours other than the one it was entered from, which is one step closer to the centre *)
+Theorem C04_centre_tree : forall (s : store) (c : id), CanonTree.tstruct (nodes s) -> amem c (nodes s) = true ->
+  rid (centre_tree s c) = c /\
+  ct_ok (nodes s) (dget (distance_to_node s c)) None (centre_tree s c) /\
+  NoDup (rnodes (centre_tree s c)) /\
+  Permutation (rnodes (centre_tree s c)) (akeys (nodes s)).
+Proof. exact centre_tree_ok. Qed.
+Print Assumptions C04_centre_tree.
+
+(* (d) a well-formed state with one open leg per node and its conjugate copy are a consistent pair over the tree of the
+   store: the hypothesis wf_two of the closed-network theorems is a consequence of the store invariant *)
+Theorem C04_wf_two_of_wf : forall (woff aoff : nat) (s : store), wf s -> one_open s -> 0 < woff ->
+  exists t, ket_tree s = Some t /\ wf_two s (conj_store woff aoff s) t /\ Permutation (rnodes t) (akeys (nodes s)).
+Proof. exact wf_two_of_wf. Qed.
+Print Assumptions C04_wf_two_of_wf.
+
+(* (a) THE BRIDGE.  For a state s (extended store invariant wfs, one open leg per node) whose recorded centre c passes the
+   executable canonical-form attribute iso_check (established by canonical_form / move_center: C03), whose off-centre
+   tensors are plain atoms (plain_off), under the KERNEL CONTRACT qr_contracts -- the Q factor of every recorded QR call
+   that is still in the network is an isometry from its bond, Q^dagger Q = 1, a statement about the atom table only --
+   the closed diagram produced by the full contraction contract_two_ttns(s, conj s) and the diagram produced by the centre
+   shortcut of scalar_product (centre tensor against its conjugate over all legs) have the same value, over any
+   commutative semiring, in the world of the two stores (atom wires and dimensions of s and of its conjugate copy). *)
+Theorem C04_canonical_norm_is_full_contraction : forall (R : Type) (zero one : R) (add mul : R -> R -> R),
+  comm_semiring zero one add mul ->
+  forall (woff aoff : nat) (s : store) (tbl : nat -> list nat -> R) (c : id),
+  wfs s -> one_open s -> 0 < woff -> next_wire s <= woff -> next_atom s <= aoff -> amem c (nodes s) = true ->
+  iso_check (s, Some c) = true -> plain_off s c -> qr_contracts R zero one add mul aoff s tbl ->
+  let bra := conj_store woff aoff s in
+  exists g gl, scalar_product woff aoff s None = Some g /\ scalar_product woff aoff s (Some c) = Some gl /\
+    forall rho, gvalue R zero one add mul (pair_wires s bra) (pair_dim s bra) tbl g rho
+                = gvalue R zero one add mul (pair_wires s bra) (pair_dim s bra) tbl gl rho.
+Proof. exact canonical_norm_is_full_contraction. Qed.
+Print Assumptions C04_canonical_norm_is_full_contraction.
+
+(* (c) the single-site shortcut.  Same hypotheses; the operator is the atom next_atom s, put by apply_operator on (fresh output
+   wire next_wire s, the centre's open wire) and by the shortcut diagram on (next_wire s, S (next_wire s)); the two worlds W1, W2
+   extend the world of the pair by that atom, the two fresh wires get the dimension of the centre's open leg.  The diagram of the
+   general path (conjugate copy, apply_operator, contract_two_ttns) and the diagram of the shortcut
+   (tensordot(tensordot(A, O, (-1, 1)), conj A, all legs)) have the same value. *)
+Theorem C04_single_site_is_full_contraction : forall (R : Type) (zero one : R) (add mul : R -> R -> R),
+  comm_semiring zero one add mul ->
+  forall (woff aoff : nat) (s : store) (tbl : nat -> list nat -> R) (c : id),
+  wfs s -> one_open s -> next_wire s + 2 <= woff -> next_atom s < aoff -> amem c (nodes s) = true ->
+  iso_check (s, Some c) = true -> plain_off s c -> qr_contracts R zero one add mul aoff s tbl ->
+  let bra := conj_store woff aoff s in
+  let na := next_atom s in
+  let nw := next_wire s in
+  let oc := open_wire s c in
+  let dd := wdim s oc in
+  let W1 := ext_wires (pair_wires s bra) na [nw; oc] in
+  let W2 := ext_wires (pair_wires s bra) na [nw; S nw] in
+  let D := ext_dim (pair_dim s bra) [nw; S nw] dd in
+  exists g gl, tp_expectation_value woff aoff s None [(c, [dd; dd])] = Some g /\
+               tp_expectation_value woff aoff s (Some c) [(c, [dd; dd])] = Some gl /\
+    forall rho, gvalue R zero one add mul W1 D tbl g rho = gvalue R zero one add mul W2 D tbl gl rho.
+Proof. exact single_site_is_full_contraction. Qed.
+Print Assumptions C04_single_site_is_full_contraction.
+
+(* the structural hypotheses in executable form (evaluated per instance) *)
+Theorem C04_canon_hyp_sound : forall (woff aoff : nat) (s : store) (c : id), canon_hyp woff aoff s c = true ->
+  wfs s /\ one_open s /\ 0 < woff /\ next_wire s <= woff /\ next_atom s <= aoff /\ amem c (nodes s) = true /\
+  iso_check (s, Some c) = true /\ plain_off s c.
+Proof. exact canon_hyp_sound. Qed.
+Print Assumptions C04_canon_hyp_sound.
+
+(* non-vacuity: the three-node chain of C03_example brought into canonical form at its middle node satisfies the structural
+   hypotheses; over Z with (rectangular) identity matrices as Q factors the kernel contract holds; the shortcut values (norm:
+   bx_val, single-site operator at the centre: bx_ss) are computed, the values of the full contractions follow from the theorems *)
+From Coq Require Import ZArith.
+Example C04_bridge_example :
+  canon_hyp 1000 100 bx_s 1 = true /\
+  qr_contracts BinNums.Z BinNums.Z0 (BinNums.Zpos BinNums.xH) BinInt.Z.add BinInt.Z.mul 100 bx_s bx_tbl /\
+  bx_val (Some 1) = Some 751260730%Z /\ bx_val None = Some 751260730%Z /\
+  bx_ss (Some 1) = Some 12867863162%Z /\ bx_ss None = Some 12867863162%Z.
+Proof.
+  split; [exact bx_hyp|]. split; [exact bx_contracts|]. split; [exact bx_local_value|]. split; [exact bx_full_value|].
+  split; [exact bx_ss_local|exact bx_ss_full].
+Qed.
+Print Assumptions C04_bridge_example.
